@@ -24,7 +24,7 @@ RULE = ('seeded worlds (stub-made; all 17 types, contiguous/interleaved, typeles
 EXPECTED_PROBES = ['memmap-handle', 'raw-vs-converted-timestamps', 'file-level-chunks', 'typeless-channel', 'eager+lazy',
                    'scaled-channel']
 MODES = ['read', 'open']
-BACKENDS = ['simstream', 'simpath', 'bytesio', 'realpath', 'realfile']
+BACKENDS = ['simstream', 'simpath', 'bytesio', 'realpath', 'realfile', 'rawfile']
 
 
 def opts(tier):
@@ -56,7 +56,9 @@ def generate(rng, tier):
     handles = []
     for _ in range(rng.randint(3, 4)):
         handles.append({'mode': rng.choice(MODES), 'backend': rng.choice(BACKENDS),
-                        'memmap': rng.random() < 0.25, 'raw_ts': rng.random() < 0.5})
+                        'memmap': rng.random() < 0.25, 'raw_ts': rng.random() < 0.5,
+                        # the order in which channel[i] visits the positions (the lazy path keeps the chunk last read)
+                        'index_order': rng.choice(['asc', 'asc', 'desc', 'neg', 'shuffle']), 'index_seed': rng.getrandbits(16)})
     if not any(h['mode'] == 'read' for h in handles):
         handles[0]['mode'] = 'read'
     if not any(h['mode'] == 'open' for h in handles):
@@ -68,7 +70,7 @@ def generate(rng, tier):
 UNSCALED_PATHS = ('read_data(scaled=False)', 'raw_data')
 
 
-def access_paths(tf, w, path, mode, n, file_chunks, keeper=None):
+def access_paths(tf, w, path, mode, n, file_chunks, keeper=None, index_order='asc', index_seed=0):
     """name -> (normalised result | ('exc', class, message))"""
     c = ops.chan(tf, w, path)
     out = {}
@@ -91,7 +93,18 @@ def access_paths(tf, w, path, mode, n, file_chunks, keeper=None):
     rec('read_data()', lambda: kept('read_data()', lambda: c.read_data()))
     rec('iter', lambda: ops.norm_iter_list(list(iter(c))))
     if n <= 40:
-        rec('[i]', lambda: ops.norm_iter_list([c[i] for i in range(n)]))
+        def by_index():
+            order = list(range(n))
+            if index_order in ('desc', 'neg'):
+                order.reverse()
+            elif index_order == 'shuffle':
+                import random
+                random.Random(index_seed).shuffle(order)
+            vals = [None] * n
+            for i in order:
+                vals[i] = c[i - n] if index_order == 'neg' else c[i]
+            return ops.norm_iter_list(vals)
+        rec('[i]', by_index)
     rec('read_data(scaled=False)', lambda: kept('read_data(scaled=False)', lambda: c.read_data(scaled=False)))
     if mode == 'read':
         rec('.data', lambda: kept('.data', lambda: c.data))
@@ -204,7 +217,7 @@ def execute(case):
                 except Exception as exc:
                     res.violations.append(V('C03.raises', 'len(%s): %s' % (path, exc)))
                     continue
-                for name, r in access_paths(tf, w, path, h['mode'], n, file_chunks, keeper).items():
+                for name, r in access_paths(tf, w, path, h['mode'], n, file_chunks, keeper, h.get('index_order', 'asc'), h.get('index_seed', 0)).items():
                     per_chan[path].append((hi, h, name, r))
                     res.steps += 1
         for path, ch in w.chans.items():
